@@ -390,15 +390,38 @@ theorem C09_setLinesForContent_is_scanner_table (f : TokenFile.File) (c : List N
 /-! ### scanner vs `literal.Unquote` on single-line string literals (partial)
 
 The full agreement "the scanner reads `lit` as one error-free STRING token ⇔ `Unquote lit`
-succeeds" over ALL single-line literals is still OPEN as a theorem (it is known to be false
-on lone surrogate escapes and a raw BOM — known findings — and is enforced on generated
-literals by the harness predicate `string-spelling-disagree`).  Proved is the agreement on
+succeeds" over ALL literals is FALSE (lone surrogate escapes, raw BOM: known findings; proved
+false below on a witness); outside those classes it is OPEN as a theorem and enforced on
+generated literals by the harness predicate `string-spelling-disagree`.  Proved is the agreement on
 PLAIN literals: a quote character (`"` or `'`), a body of printable ASCII bytes other than that
 quote character and backslash, and the closing quote — and on their unterminated variants. -/
 
-/-- OPEN: the full statement (modulo the two known classes it would need to exclude). -/
-def C09_string_agree_stmt : Prop :=   -- OPEN
+/-- The unrestricted statement … -/
+def C09_string_agree_stmt : Prop :=
   ∀ (M : Scan.Mode) (U : Scan.Uni) (lit : Scan.Str) (fuel : Nat), lit.length * 2 + 2 < fuel →
+    ((∃ st', Scan.scanTok M U lit.length fuel ⟨lit, false, []⟩ =
+        some (⟨.STRING, 0, lit.length, lit, false⟩, st') ∧ st'.cur = []) ↔
+      ∃ v, Quote.unquote lit = .ok v)
+
+/-- … is FALSE on model and code alike: the scanner reads `"\ud800"` (a lone surrogate escape)
+as one error-free STRING token, `literal.Unquote` rejects it — the known finding
+string-lone-surrogate-escape, replayed by the harness on every run. -/
+theorem C09_string_agree_false : ¬ C09_string_agree_stmt := by
+  intro h
+  have h1 := (h ⟨false, false⟩ ⟨fun _ => false, fun _ => false⟩ [34, 92, 117, 100, 56, 48, 48, 34] 20
+    (by decide)).mp ⟨_, Scan.scanTok_lone_surrogate, rfl⟩
+  obtain ⟨v, hv⟩ := h1
+  exact Scan.unquote_lone_surrogate v hv
+
+/-- OPEN: the agreement on single-line literals outside the two known classes (here: ASCII
+literals without a `\u` / `\U` escape that do not start, after their hashes, with a triple
+quote).  Believed true — the harness predicate `string-spelling-disagree` enforces it on
+≈ 12,000 / 250,000 generated literals per run — but not proved beyond the plain class below. -/
+def C09_string_agree_restricted_stmt : Prop :=   -- OPEN
+  ∀ (M : Scan.Mode) (U : Scan.Uni) (lit : Scan.Str) (fuel : Nat), lit.length * 2 + 2 < fuel →
+    (∀ b ∈ lit, b < 0x80) →
+    (∀ pre post, lit ≠ pre ++ 92 :: 117 :: post ∧ lit ≠ pre ++ 92 :: 85 :: post) →
+    (∀ q post, lit.dropWhile (· == 35) ≠ q :: q :: q :: post) →
     ((∃ st', Scan.scanTok M U lit.length fuel ⟨lit, false, []⟩ =
         some (⟨.STRING, 0, lit.length, lit, false⟩, st') ∧ st'.cur = []) ↔
       ∃ v, Quote.unquote lit = .ok v)
@@ -432,5 +455,28 @@ theorem C09_string_agree_plain_unterminated (M : Scan.Mode) (U : Scan.Uni) (q : 
     Quote.unquote (q :: b :: rest) = .error .unmatchedQuote :=
   ⟨Scan.scanTok_plain_open M U q hq b rest h fuel,
    Scan.unquote_plain_open q hq (b :: rest) (by simp) h⟩
+
+/-! ### the re-quoting form of `PatchExpr` (goal 3 of the extension brief) -/
+
+/-- `internal/encoding/json` `PatchExpr` (and both YAML decoders) re-quote every long or escaped
+string literal with `literal.String.WithOptionalTabIndent(n).WithOptionalHashes()`.  For that
+form, ANY indentation `n` and EVERY valid UTF-8 string — single line or, when it contains a
+line feed, multi-line with `n` tabs and as many '#' as `requiredHashCount` demands —
+`Unquote(Quote(s)) = s`.  A corollary of `C09_roundtrip` (both the single-line optional-hashes
+case and the multi-line case); it closes the item C10's notes listed as open for multi-line
+forms. -/
+theorem C09_roundtrip_patchexpr_form (E : Env) (hE : E.Ok) (n : Nat) (s : Bytes) (hb : IsBytes s)
+    (hv : validUTF8 s = true) :
+    RoundTrips E ((stringForm.withOptionalTabIndent n).withOptionalHashes) s :=
+  C09_roundtrip E hE _ (Or.inl ⟨rfl, rfl⟩) s hb (Or.inr hv)
+
+-- non-vacuity: a string with line feeds (so the form is effectively multi-line), `"""#`, a tab
+-- and a trailing backslash
+example : RoundTrips asciiEnv ((stringForm.withOptionalTabIndent 2).withOptionalHashes)
+    [0x61, 0x0A, 0x22, 0x22, 0x22, 0x23, 0x0A, 0x09, 0x62, 0x5C] ∧
+    ((stringForm.withOptionalTabIndent 2).withOptionalHashes).effMultiline
+      [0x61, 0x0A, 0x22, 0x22, 0x22, 0x23, 0x0A, 0x09, 0x62, 0x5C] = true :=
+  ⟨C09_roundtrip_patchexpr_form asciiEnv asciiEnv_ok 2 _ (by intro b hb; simp at hb; omega)
+    (by simp [validUTF8, decodeFirst]), by decide⟩
 
 end CueVerif.C09
